@@ -7,6 +7,15 @@ import vlib
 LEVEL = 'proof'
 JOBS = 4
 
+# C13_MODE for the harness and the model driver (see run()): '' = a rejected load has no effect and
+# the history goes on (tree with fixes/C13-1.patch); 'ps' = the pinned tree: the model's variant
+# [step false], and a rejected load ends the history (what follows it on that tree is garbage: the
+# table of globals points into a module that is never linked)
+MODE = {'C13_MODE': ''}
+
+# the witness of fixes/C13-1.patch
+PROBE = 'L e0 F0 ; L e0 F0 ; L i0 ; K 0 i'
+
 
 # ------------------------------------------------------------------ generators
 
@@ -47,7 +56,7 @@ def gen_module(rng, nnames, valid_bias=0.9):
 def gen_history(rng, nops, gen_share):
     nnames = rng.choice([1, 2, 2, 3, 3, 4])
     ops = []
-    if rng.random() < 0.7:
+    if rng.random() < 0.6:
         ops.append('R 1')
     for _ in range(nops):
         k = rng.random()
@@ -58,8 +67,11 @@ def gen_history(rng, nops, gen_share):
         elif k < 0.70:
             ops.append('R %d' % rng.choice([0, 1, 1, 1]))
         else:
-            mask = rng.choice([0, (1 << nnames) - 1, (1 << nnames) - 1, (1 << nnames) - 1, rng.randrange(1 << nnames)])
+            mask = rng.choice([0, (1 << nnames) - 1, (1 << nnames) - 1, (1 << nnames) - 1, rng.randrange(1 << nnames),
+                               rng.randrange(1 << nnames)])
             iface = rng.choice('gl') if rng.random() < gen_share else 'i'
+            if rng.random() < 0.08:
+                iface = 'n'      # MIR_link with a NULL set_interface: binds, keeps the queue
             ops.append('K %d %s' % (mask, iface))
     if not ops[-1].startswith('K'):
         ops.append('K %d i' % ((1 << nnames) - 1))
@@ -73,6 +85,11 @@ EXH_ALPHABET = ['L e0 F0', 'L i0', 'L e0 F0 i1', 'L e1 B1 i0', 'L e1 F1', 'L i0 
 # a second small alphabet: declaration orders, data and proto exports, revoking the permission, the
 # generator interfaces
 EXH_ALPHABET2 = ['L f0 e0 F0', 'L e0 D0', 'L i0', 'L e0 P0', 'L F0 e0 i1', 'X 0 1', 'R 1', 'R 0', 'K 0 g', 'K 3 l']
+
+# a third one aimed at histories that go on after an error: rejected loads (also of a module that
+# exports something new besides the clashing function), failed links (resolver answers before the
+# failing import), retries, interface-less links
+EXH_ALPHABET3 = ['L e0 F0', 'L e1 D1 e0 B0', 'L i1 i0', 'L i0', 'X 0 2', 'R 1', 'K 0 i', 'K 2 i', 'K 2 n', 'K 3 g']
 
 
 def exhaustive(maxlen, alphabet=None):
@@ -94,7 +111,7 @@ def run_chunk(exe, lines, env=None):
     start = 0
     crashes = 0
     while start < len(lines):
-        rc, o, e = vlib.run_lines(exe, lines[start:], timeout=3000, env=env)
+        rc, o, e = vlib.run_lines(exe, lines[start:], timeout=3000, env=dict(MODE, **(env or {})))
         if o and o[-1] == '' and len(o) > len(lines) - start:
             o = o[:-1]
         if rc == 0 and len(o) == len(lines) - start:
@@ -125,10 +142,15 @@ def run_parallel(exe, lines, jobs=JOBS, env=None):
 
 
 def impl_line(impl, h):
-    rc, o, e = vlib.run_lines(impl, [h], timeout=120)
+    rc, o, e = vlib.run_lines(impl, [h], timeout=120, env=MODE)
     if rc != 0 or len(o) != 1:
         return 'CRASH rc=%d %s' % (rc, (o[0] if o else '') + e[-200:])
     return o[0]
+
+
+def model_line(model, h, env=None):
+    b = vlib.run_lines(model, [h], env=env or MODE)[1]
+    return b[0] if b else None
 
 
 def prop_view(line):
@@ -140,9 +162,11 @@ def prop_view(line):
     out = []
     for st in line.split(' | '):
         if st.startswith('ok res='):
-            mods = re.findall(r'(m\d+)\{([^}]*)\}', st)
+            mods = re.findall(r'([mp]\d+)\{([^}]*)\}', st)
             out.append('ok ' + ' '.join('%s{%s}' % (m, ' '.join(b for b in bs.split() if b.startswith('i')))
                                         for m, bs in mods))
+        elif st.startswith('E:undeclared_op_ref'):
+            out.append('E:undeclared_op_ref')
         else:
             out.append(st)
     return ' | '.join(out)
@@ -188,8 +212,8 @@ def shrink(impl, model, h, prop=False):
 
     def fails(sub):
         s = ' ; '.join(sub)
-        b = vlib.run_lines(model, [s])[1]
-        return bool(b) and differs(impl_line(impl, s), b[0], prop)
+        b = model_line(model, s)
+        return b is not None and differs(impl_line(impl, s), b, prop)
     sub = vlib.shrink_list(ops, fails)
     # also try dropping single declarations inside each L op
     changed = True
@@ -241,6 +265,34 @@ def coqchk(chk):
     return rc == 0
 
 
+def select_mode(chk, impl, model):
+    """Decides on the witness history of fixes/C13-1.patch which variant of a rejected load the tree
+    has.  -> False when the run cannot go on."""
+    MODE['C13_MODE'] = ''
+    a = impl_line(impl, PROBE)
+    fixed_b = model_line(model, PROBE, {'C13_MODE': ''})
+    pinned_b = model_line(model, PROBE, {'C13_MODE': 'p'})
+    registered = any('C13-1' in t for t in chk.fixed)
+    chk.cov['rejected_load_probe'] = dict(history=PROBE, impl=a, model_no_effect=fixed_b, model_pinned=pinned_b)
+    if full_eq(a, fixed_b):
+        chk.cov['rejected_load'] = 'has no effect (fixes/C13-1.patch is in): histories go on after it'
+        return True
+    if full_eq(a, pinned_b):
+        if registered:
+            chk.finding('C13-1:rejected-load-publishes', dict(history=PROBE, impl=a, model=fixed_b),
+                        'C13 a module rejected by MIR_load_module (repeated_decl) is visible to later links: %s gives %s' % (PROBE, a))
+        else:
+            chk.notes.append('fixes/C13-1.patch not in this tree: a rejected MIR_load_module has already published the '
+                             'module\'s items (witness %s -> %s); histories are cut at a rejected load and compared with '
+                             'the model\'s pinned variant up to there' % (PROBE, a))
+            chk.cov['rejected_load'] = 'publishes (pinned tree): histories end at a rejected load'
+        MODE['C13_MODE'] = 'ps'
+        return True
+    chk.finding('diff:' + PROBE, dict(history=PROBE, impl=a, model=fixed_b, model_pinned=pinned_b),
+                'C13 binding after a rejected load matches neither variant of the model: %s' % PROBE)
+    return False
+
+
 def run(chk):
     quick = chk.tier == 'quick'
     r = chk.prove()
@@ -250,16 +302,19 @@ def run(chk):
     chk.cov['trusted_base'] += ['extraction: ExtrOcamlBasic only, no Extract Constant/Inductive of our own',
                                 'ocaml/driver_c13.ml, harness/c13_link.c (parse, build tiny modules through the public API, print)',
                                 'gcc; mir-gen/mir-interp as the engines through which bindings are observed']
+    if not select_mode(chk, impl, model):
+        return
     hs = []
     corpus = os.path.join(vlib.VERIF, 'corpus', 'c13.txt')
     if os.path.exists(corpus):
         hs += [l.strip() for l in open(corpus) if l.strip() and not l.startswith('#')]
     ncorpus = len(hs)
-    ex = exhaustive(4 if quick else 6) + exhaustive(3 if quick else 5, EXH_ALPHABET2)
+    ex = (exhaustive(4 if quick else 6) + exhaustive(3 if quick else 5, EXH_ALPHABET2)
+          + exhaustive(4 if quick else 5, EXH_ALPHABET3))
     rng = chk.rng('hist')
     if quick:  # a seeded sample of the length-5/6 part of the exhaustive space
         for _ in range(12000):
-            t = [rng.choice(rng.choice([EXH_ALPHABET, EXH_ALPHABET2])) for _ in range(rng.choice([5, 6]))]
+            t = [rng.choice(rng.choice([EXH_ALPHABET, EXH_ALPHABET2, EXH_ALPHABET3])) for _ in range(rng.choice([5, 6, 7]))]
             t[-1] = rng.choice(['K 0 i', 'K 3 i', 'K 3 g', 'L i0 i1', 'L e0 F0'])
             ex.append(' ; '.join(t))
     hs += ex
@@ -281,7 +336,10 @@ def run(chk):
                       'after every link the address identity of every import/export/forward item of every module linked '
                       'so far plus the value obtained by calling/reading through each import; non-trivial = has a link '
                       'and >= 3 ops; exhaustive part = all histories over %d fixed ops up to length %d and over %d other ops '
-                      'up to length %d' % (len(EXH_ALPHABET), 4 if quick else 6, len(EXH_ALPHABET2), 3 if quick else 5))
+                      'up to length %d and over %d more (rejected loads, failed links, retries, NULL-interface links) up to '
+                      'length %d; a history GOES ON after a failed link and - when fixes/C13-1.patch is in - after a rejected '
+                      'load' % (len(EXH_ALPHABET), 4 if quick else 6, len(EXH_ALPHABET2), 3 if quick else 5,
+                                len(EXH_ALPHABET3), 4 if quick else 5))
     for h in hs[ncorpus + len(ex):][:4]:
         chk.sample(h)
     bad = correspond(impl, model, hs)
@@ -292,6 +350,12 @@ def run(chk):
         last = steps[-1] if steps else ''
         chk.dist('outcome', last.split()[0] if last else 'empty')
         chk.dist('links_completed', min(8, sum(1 for s in steps if s.startswith('ok res='))))
+        # steps taken AFTER an error in the same context
+        errs = [i for i, s_ in enumerate(steps) if s_.startswith('E:')]
+        chk.dist('steps_after_first_error', min(8, len(steps) - 1 - errs[0]) if errs else 'no error')
+        chk.dist('rejected_loads', min(4, sum(1 for s_ in steps if s_.startswith('E:repeated_decl'))))
+        chk.dist('failed_links', min(4, sum(1 for s_ in steps if s_.startswith('E:undeclared_op_ref'))))
+        chk.dist('links_completed_after_error', min(4, sum(1 for s_ in steps[errs[0]:] if s_.startswith('ok res='))) if errs else 0)
     prop_bad = [x for x in bad if differs(x[1], x[2], True)]
     seen = set()
     for h, a, b in prop_bad[:40]:
@@ -300,7 +364,7 @@ def run(chk):
             continue
         seen.add(small)
         ia = impl_line(impl, small)
-        mb = vlib.run_lines(model, [small])[1][0]
+        mb = model_line(model, small)
         chk.finding('diff:' + small, dict(history=small, impl=ia, model=mb, original=h),
                     'C13 %s on history: %s' % (classify(small, *prop_pair(ia, mb)), small))
         if len(seen) >= 3:
@@ -309,7 +373,7 @@ def run(chk):
         h, a, b = bad[0]
         small = shrink(impl, model, h)
         ia = impl_line(impl, small)
-        mb = vlib.run_lines(model, [small])[1][0]
+        mb = model_line(model, small)
         chk.finding('tie:link-trace', dict(correspondence='C13 Link.v vs mir.c on resolver-call order / local export+forward bindings',
                                            history=small, impl=ia, model=mb, disagreements=len(bad),
                                            searched='%d histories: all error codes and import bindings agreed' % len(hs)),
@@ -321,11 +385,11 @@ def run(chk):
             impl_asan = vlib.build_harness('c13_link', ['c13_link.c'], variant='asan')
             sample = hs[:ncorpus] + ex[:3000] + hs[ncorpus + len(ex):][:3000]
             rc, o, e = vlib.run_lines(impl_asan, sample, timeout=3000,
-                                      env={'ASAN_OPTIONS': 'detect_leaks=0', 'UBSAN_OPTIONS': 'print_stacktrace=1'})
-            mo = vlib.run_lines(model, sample)[1]
+                                      env=dict(MODE, ASAN_OPTIONS='detect_leaks=0', UBSAN_OPTIONS='print_stacktrace=1'))
+            mo = vlib.run_lines(model, sample, env=MODE)[1]
             if rc != 0 or len(o) != len(mo) or not all(full_eq(x, y) for x, y in zip(o, mo)):
                 for h, b in zip(sample, mo):
-                    rc1, o1, e1 = vlib.run_lines(impl_asan, [h], timeout=120, env={'ASAN_OPTIONS': 'detect_leaks=0'})
+                    rc1, o1, e1 = vlib.run_lines(impl_asan, [h], timeout=120, env=dict(MODE, ASAN_OPTIONS='detect_leaks=0'))
                     if rc1 != 0 or len(o1) != 1 or not full_eq(o1[0], b):
                         chk.finding('asan:' + h, dict(history=h, impl=o1, stderr=e1[-1500:], model=b),
                                     'C13 sanitizer build disagrees/crashes on history: %s' % h)
@@ -341,9 +405,13 @@ def replay(chk, path):
     j = json.load(open(path))
     impl, model = build()
     h = j['replay']['history']
+    if j.get('signature', '').startswith('C13-1'):
+        MODE['C13_MODE'] = ''
+    else:
+        select_mode(chk, impl, model)
     a = impl_line(impl, h)
-    b = vlib.run_lines(model, [h])[1]
+    b = model_line(model, h)
     print('history:', h)
     print('impl :', a)
-    print('model:', b[0] if b else None)
-    return 0 if b and full_eq(a, b[0]) else 1
+    print('model:', b)
+    return 0 if b is not None and full_eq(a, b) else 1
